@@ -26,13 +26,15 @@ Definition s_select (ss : sstate) (g : gsel) : sstate :=
   match g with GDirect => ss | GNamed n => s_group ss n end.
 
 Definition called (n : str) (x : objid * obj) : bool := if str_eq_dec (id_name (fst x)) n then true else false.
-Definition s_declare (ss : sstate) (g : gsel) (k : kind) (n : str) : sstate * option objid :=
-  let ss1 := s_select ss g in
-  let i := (gkey g, k, n) in
+(* declaring (gn, k, n) when the group gn exists *)
+Definition s_gdeclare (ss1 : sstate) (gn : str) (k : kind) (n : str) : sstate * option objid :=
+  let i := (gn, k, n) in
   match List.find (called n) (s_decls ss1) with
   | None => (mkS (s_groups ss1) (s_decls ss1 ++ [(i, new_obj)]), Some i)
   | Some x => if objid_eq_dec (fst x) i then (ss1, Some i) else (ss1, None)
   end.
+Definition s_declare (ss : sstate) (g : gsel) (k : kind) (n : str) : sstate * option objid :=
+  s_gdeclare (s_select ss g) (gkey g) k n.
 
 Definition s_lookup (ss : sstate) (i : objid) : option obj :=
   match List.find (fun x => if objid_eq_dec (fst x) i then true else false) (s_decls ss) with
@@ -76,6 +78,13 @@ Definition s_display_order (ss : sstate) : list (kind * str) :=
                          (filter (fun x => if str_eq_dec (id_grp (fst x)) g then true else false) (s_decls ss)))
            (s_groups ss).
 
+Definition s_set_on (s1 : sstate) (i : objid) (x : setter) : sstate * outcome :=
+  match s_lookup s1 i with
+  | None => (s1, RDev)
+  | Some ob => match s_setter x ob with None => (s1, RDevSet i) | Some ob' => (s_store s1 i ob', ROk i) end
+  end.
+(* a held handle is just a name: the operation through it is the operation on the named group / entry, and
+   nothing else in the parser is involved *)
 Definition s_step (ss : sstate) (o : op) : sstate * outcome :=
   match o with
   | OGroup g => (s_group ss g, RGroup g)
@@ -83,12 +92,17 @@ Definition s_step (ss : sstate) (o : op) : sstate * outcome :=
   | OSet g k n x =>
       match s_declare ss g k n with
       | (s1, None) => (s1, RDev)
-      | (s1, Some i) =>
-          match s_lookup s1 i with
-          | None => (s1, RDev)
-          | Some ob => match s_setter x ob with None => (s1, RDevSet i) | Some ob' => (s_store s1 i ob', ROk i) end
-          end
+      | (s1, Some i) => s_set_on s1 i x
       end
+  | OHDecl g k n xo =>
+      if in_dec str_eq_dec g (s_groups ss) then
+        match s_gdeclare ss g k n, xo with
+        | (s1, None), _ => (s1, RDev)
+        | (s1, Some i), None => (s1, ROk i)
+        | (s1, Some i), Some x => s_set_on s1 i x
+        end
+      else (ss, RNoHandle)
+  | OHSet i x => match s_lookup ss i with None => (ss, RNoHandle) | Some _ => s_set_on ss i x end
   | OMove => (ss, RMoved)
   | OParse => (ss, RParse (s_parse ss))
   end.
